@@ -166,9 +166,10 @@ def gen_leaf(rng, n: int, m: int) -> dict:
 # ---- one function object used at several places of a tree
 
 
-def gen_shared_target(rng, n: int, m: int, depth: int) -> dict:
+def gen_shared_target(rng, n: int, m: int, depth: int, node_gen=None) -> dict:
     """The function object that is used twice: a restriction / a linear composition (often of a function that
     returns a view of its input), or any node."""
+    gen_node = node_gen or globals()["gen_node"]
     r = rng.random()
     node = None
     if r < 0.45 and n <= 4:
@@ -192,7 +193,7 @@ def gen_shared_target(rng, n: int, m: int, depth: int) -> dict:
 SHARED_HOWS = ("lc-lc", "lc-lc", "res-res", "same-argument", "direct-lc")
 
 
-def gen_shared_pair(rng, n: int, m: int, depth: int, how: str | None = None) -> tuple[dict, dict, str]:
+def gen_shared_pair(rng, n: int, m: int, depth: int, how: str | None = None, node_gen=None) -> tuple[dict, dict, str]:
     """Two operands R^n -> R^m that use ONE function object S, in general at different arguments:
     S(Ax), S(Bx) | S(x with frozen u), S(x with frozen v) | S(x), S(x) | S(x), S(Bx)."""
     how = how or rng.pick(SHARED_HOWS)
@@ -201,22 +202,22 @@ def gen_shared_pair(rng, n: int, m: int, depth: int, how: str | None = None) -> 
     mat = lambda rows, cols: [[str(rng.randint(-2, 2)) for _ in range(cols)] for _ in range(rows)]  # noqa: E731
     if how == "lc-lc":
         k = rng.pick([1, 2, 2, 3, m])
-        s1 = gen_shared_target(rng, k, m, depth - 1)
+        s1 = gen_shared_target(rng, k, m, depth - 1, node_gen)
         a = {"op": "lc", "a": s1, "A": mat(k, n)}
         b = {"op": "lc", "a": copy.deepcopy(s1), "A": mat(k, n)}
     elif how == "res-res":
         kf = rng.pick([1, 1, 2])
         N = n + kf
-        s1 = gen_shared_target(rng, N, m, depth - 1)
+        s1 = gen_shared_target(rng, N, m, depth - 1, node_gen)
         f1 = sorted(rng.sample(range(N), kf))
         f2 = f1 if rng.chance(0.6) else sorted(rng.sample(range(N), kf))
         a = {"op": "res", "a": s1, "N": N, "frozen": f1, "values": gen_point(rng, kf)}
         b = {"op": "res", "a": copy.deepcopy(s1), "N": N, "frozen": f2, "values": gen_point(rng, kf)}
     elif how == "same-argument":
-        a = gen_shared_target(rng, n, m, depth)
+        a = gen_shared_target(rng, n, m, depth, node_gen)
         b = copy.deepcopy(a)
     else:
-        a = gen_shared_target(rng, n, m, depth)
+        a = gen_shared_target(rng, n, m, depth, node_gen)
         b = {"op": "lc", "a": copy.deepcopy(a), "A": mat(n, n)}
     if rng.chance(0.5):
         a, b = b, a
@@ -224,6 +225,63 @@ def gen_shared_pair(rng, n: int, m: int, depth: int, how: str | None = None) -> 
 
 
 SHARED_RATE = 0.12
+
+
+def gen_store_tree(rng, n: int, m: int, depth: int) -> dict:
+    """A tree of the fragment of the storage model (`SExpr`): user functions returning views or new arrays,
+    restriction, linear composition, operators between functions, generic negation, concatenation, one object twice."""
+    if depth <= 0 or rng.chance(0.15):
+        v = gen_view_leaf(rng, n, m) if (m <= n and rng.chance(0.5)) else None
+        return v or gen_poly(rng, n, m)
+    k = rng.pick(["bin", "bin", "res", "res", "lc", "lc", "neg", "cat", "twice", "twice"])
+    if k == "bin":
+        return {"op": rng.pick(BINOPS), "a": gen_store_tree(rng, n, m, depth - 1), "b": gen_store_tree(rng, n, rng.pick([m, m, 1]), depth - 1)}
+    if k == "res" and n <= 4:
+        kf = rng.pick([1, 1, 2])
+        N = n + kf
+        return {"op": "res", "a": gen_store_tree(rng, N, m, depth - 1), "N": N, "frozen": sorted(rng.sample(range(N), kf)), "values": gen_point(rng, kf)}
+    if k == "lc":
+        kk = rng.pick([m, 2, 3])
+        return {"op": "lc", "a": gen_store_tree(rng, kk, m, depth - 1), "A": [[str(rng.randint(-2, 2)) for _ in range(n)] for _ in range(kk)]}
+    if k == "cat" and m >= 2:
+        p = rng.randint(1, m - 1)
+        return {"op": "cat", "args": [gen_store_tree(rng, n, p, depth - 1), gen_store_tree(rng, n, m - p, depth - 1)]}
+    if k == "twice":
+        a, b, how = gen_shared_pair(rng, n, m, depth - 1, None, gen_store_tree)
+        return {"op": rng.pick(BINOPS), "a": a, "b": b, "shared_how": how}
+    return {"op": "neg", "a": gen_store_tree(rng, n, m, depth - 1)}
+
+
+def gen_store_session(rng) -> dict | None:
+    """A session inside the storage model: one tree of the fragment, the caller's buffer written in place or replaced,
+    evaluate / func / jac of the root, every returned array kept."""
+    n = rng.pick([1, 2, 2, 3, 3])
+    m = rng.pick([1, 2, 2, 3])
+    if rng.chance(0.4):
+        m = n
+    tree = gen_store_tree(rng, n, m, rng.randint(1, 3))
+    try:
+        out_dim(tree, n)
+    except IllShaped:
+        return None
+    if not share_consistent(tree) or hist.store_tokens(tree, n) is None:
+        return None
+    pts = in_scope_points(tree, n, [gen_point(rng, n) for _ in range(10)])
+    pts = [p for i, p in enumerate(pts) if p not in pts[:i]]
+    if len(pts) < 2:
+        return None
+    script = [{"do": "x", "p": pts[0], "how": "fresh"}]
+    for _ in range(rng.randint(4, 9)):
+        r = rng.random()
+        if r < 0.3 and script[-1]["do"] != "x":
+            script.append({"do": "x", "p": rng.pick(pts), "how": "inplace"})
+        elif r < 0.4 and script[-1]["do"] != "x":
+            script.append({"do": "x", "p": rng.pick(pts), "how": "fresh"})
+        else:
+            script.append({"do": rng.pick(["v", "v", "f", "j"])})
+    if sum(1 for s_ in script if s_["do"] in ("v", "f")) < 2:
+        return None
+    return {"hist": True, "n": n, "tree": tree, "script": script}
 
 
 def gen_linear(rng, n: int, m: int, depth: int, nrm_ok: bool = False) -> dict:
@@ -1287,8 +1345,14 @@ def check_sessions(res: Result, cases: list[dict], use_model: bool = True) -> No
         ls, spans = hist.session_lines(c)
         spans_of.append((len(all_lines), spans))
         all_lines += ls
+    store_of: list[tuple[int, list[str], list[int]] | None] = []
+    for c in cases:
+        sl = hist.store_lines(c)
+        store_of.append(None if sl is None else (len(all_lines), sl[0], sl[1]))
+        if sl is not None:
+            all_lines += sl[0]
     out = common.run_lean_driver(PID, all_lines) if use_model and driver_available() and all_lines else None
-    for case, (base, spans) in zip(cases, spans_of):
+    for case, (base, spans), store in zip(cases, spans_of, store_of):
         res.evaluations += 1
         tree, n = case["tree"], case["n"]
         try:
@@ -1353,6 +1417,25 @@ def check_sessions(res: Result, cases: list[dict], use_model: bool = True) -> No
                         "implementation and Lean model disagree on a session (the oracle holds on it): " + diffs[0],
                         {"case": case, "protocol_lines": hist.session_lines(case)[0], "model": answers, "differences": diffs,
                          "correspondence": "Driver/C10.lean sessions (`step` of Model/C10.lean)"},
+                    )
+            else:
+                res.traces_validated += 1
+        if out is not None and store is not None and "build_exc" not in obs:
+            sbase, slines, ssteps = store
+            res.count("storage-model:sessions")
+            res.count("storage-model:calls", len(ssteps))
+            if any(obs["steps"][k].get("in_buffer") for k in ssteps if k < len(obs["steps"])):
+                res.count("storage-model:session-with-a-result-in-the-callers-buffer")
+            sdiffs = hist.compare_store_with_model(case, obs, slines, ssteps, out[sbase : sbase + len(slines)], close, Q)
+            if sdiffs:
+                res.disagreements += 1
+                if not reported:
+                    res.violate(
+                        "correspondence",
+                        f"model-vs-impl:storage:{root_sig(tree, n)}",
+                        "implementation and Lean storage model disagree on where the returned arrays live (the oracle holds on the session): " + sdiffs[0],
+                        {"case": case, "protocol_lines": slines, "model": out[sbase : sbase + len(slines)], "differences": sdiffs,
+                         "correspondence": "Driver/C10.lean storage histories (`Hist.step`, `SExpr.run` of Model/C10.lean)"},
                     )
             else:
                 res.traces_validated += 1
@@ -1645,6 +1728,15 @@ def run(ctx) -> Result:
             res.notes.append(f"deadline reached after {i} sessions")
             break
         check_sessions(res, sessions[i : i + 300])
+    n_store = 1500 if ctx.thorough else 200
+    store_sessions: list[dict] = []
+    while len(store_sessions) < n_store:
+        c = gen_store_session(rng)
+        if c is not None:
+            store_sessions.append(c)
+    res.count("stream:storage-session", len(store_sessions))
+    for i in range(0, len(store_sessions), 300):
+        check_sessions(res, store_sessions[i : i + 300])
     probes = [c for c in (gen_probe_case(rng) for _ in range(60)) if c is not None]
     check_cases(res, probes, False)
     res.count("stream:probe(out-of-scope)", len(probes))
